@@ -63,12 +63,13 @@ type listParser struct {
 }
 
 // ParseList reads exactly one parenthesised list that must span the whole text. It is strict:
-//   list    = "(" [item *(SP item)] ")"   - exactly one space between items, none after "(" or before ")";
-//             two adjacent lists may follow each other without a space (body: 1*body SP media-subtype)
-//   item    = list / quoted / literal / "NIL" / number
-//   quoted  = DQUOTE *QUOTED-CHAR DQUOTE; "\" may only precede DQUOTE or "\"; no CR, LF, NUL
-//             (octets above 127 are tolerated: UTF8=ACCEPT servers send them)
-//   literal = "{" number "}" CRLF octets
+//
+//	list    = "(" [item *(SP item)] ")"   - exactly one space between items, none after "(" or before ")";
+//	          two adjacent lists may follow each other without a space (body: 1*body SP media-subtype)
+//	item    = list / quoted / literal / "NIL" / number
+//	quoted  = DQUOTE *QUOTED-CHAR DQUOTE; "\" may only precede DQUOTE or "\"; no CR, LF, NUL
+//	          (octets above 127 are tolerated: UTF8=ACCEPT servers send them)
+//	literal = "{" number "}" CRLF octets
 func ParseList(s string) (*Item, error) {
 	p := &listParser{s: s}
 	if len(s) == 0 || s[0] != '(' {
